@@ -701,6 +701,9 @@ class FxCtx(Ctx):
         self.externals[os.path.relpath] = lambda interp, *a, **k: OpaqueStr()
         self.externals[os.walk] = lambda interp, top, *a, **k: SWalk(top)
         self.externals[os.path.join] = lambda interp, *parts: SPathTok(("join",) + tuple(parts))
+        import filecmp as _fc
+        # filecmp.cmp / cmpfiles: some answer (shallow comparisons say "identical" for files that differ in content only)
+        self.externals[_fc.cmp] = lambda interp, a, b, shallow=True: SBool(z3.Bool(interp.ex.fresh_name("filecmp_cmp_says_identical")))
 
     def x_copytree(self, interp, src, dst, **kw):
         """shutil.copytree contract: ALWAYS creates the destination directories itself, then calls copy_function for every file"""
@@ -770,7 +773,7 @@ def mk_file_proxy(interp, dry_run, root, permissions=False, times=False, follow_
 class ProxyMethod(Contract):
     """dry_run => no file-system effect and normal return whenever the live run returns normally; live => the documented effect"""
     ctx_class = FxCtx
-    properties = ("C15",)
+    properties = ("C13", "C14", "C15")      # a live copy / remove really happens (C13 superset, C14 overwrite iff the strategy says so); a dry run does nothing (C15)
     method = None
     inline_all = (f"{SY}._FileModifyProxy._copy", f"{SY}._FileModifyProxy._copy_p", f"{SY}._FileModifyProxy._copy2", f"{SY}._FileModifyProxy._remove",
                   f"{SY}._FileModifyProxy.remove", f"{SY}._FileModifyProxy.copy", f"{SY}._log_more")
@@ -879,7 +882,13 @@ class SDocState(Sym):
             return NativeStub(lambda: self.log.append(("clear",)), "doc.clear")
         if name == "keys":
             return NativeStub(lambda: SKeyList(), "doc.keys")
+        if name in ("update", "reset", "pop", "popitem", "setdefault", "__setitem__", "__delitem__"):
+            # every other mutator of the real document is a mutation all the same
+            return NativeStub(lambda *a, **k: self.log.append((name,) + tuple(a)), f"doc.{name}")
         raise Unsupported(f"doc.{name}")
+
+    def sym_delitem(self, ex, k):
+        self.log.append(("delitem", k))
 
 
 class SKeyList(Sym):
@@ -957,7 +966,7 @@ class DpUpdate(DocProxyMethod):
         return [self.mk(interp, case), SDocState([])], {}, {}
 
     def live_ok(self, log):
-        return True
+        return all(e[0] == "setitem" for e in log)       # key by key through __setitem__ (which carries the dry-run gate), nothing else
 
 
 CONTRACTS += [PxCopy(), PxCopytree(), PxRemove(), DpSetitem(), DpClear(), DpUpdate()]
@@ -1387,13 +1396,13 @@ class BackupCtx(Ctx):
 
 class CreateBackup(Contract):
     target = f"{SY}._FileModifyProxy.create_backup"
-    properties = ("C14", "C15")
+    properties = ("C13", "C14", "C15")
     ctx_class = BackupCtx
     inline = (f"{SY}._FileModifyProxy._copy2", f"{SY}._FileModifyProxy._remove", f"{SY}._log_more")
     callees = {"signac._utility._safe_relpath": stub_safe_relpath}
 
     def cases(self):
-        return [{"dry_run": d, "body": b} for d in (False, True) for b in ("ok", "raises")]
+        return [{"dry_run": d, "body": b, "stale": st} for d in (False, True) for b in ("ok", "raises") for st in (False, True) if not (st and b == "raises")]
 
     def setup(self, interp, case):
         g = interp.ctx.ghost
@@ -1402,6 +1411,13 @@ class CreateBackup(Contract):
         interp.ex.assume(orig != ABSENT)
         g["files"][interp.ctx.key(p)] = orig
         g.update({"p": p, "orig": orig})
+        if case["stale"]:
+            # a file of that name already sits next to the document (left behind by an interrupted run, or simply the user's): it exists
+            # only in the destination and is not ours to overwrite or delete
+            stale = z3.Const("stale_backup_content", Content)
+            interp.ex.assume(stale != ABSENT)
+            g["files"][interp.ctx.key(SPathTok(("backup", p)))] = stale
+            g["stale"] = stale
         return [mk_file_proxy(interp, case["dry_run"], None), p], {}, {}
 
     def yield_hook(self, interp, case, pre):
@@ -1421,6 +1437,11 @@ class CreateBackup(Contract):
         key = interp.ctx.key
         cur = g["files"].get(key(g["p"]), ABSENT)
         bak = g["files"].get(key(SPathTok(("backup", g["p"]))), ABSENT)
+        if case["stale"]:
+            ex.oblige(self.oname("raises:an_existing_file_under_the_backup_name_is_refused_(RuntimeError)_and_left_exactly_as_it_was,_the_body_never_runs"),
+                      z3.And(z3.BoolVal(outcome[0] == "raise" and isinstance(outcome[1], RuntimeError) and "yielded" not in g), bak == g["stale"], cur == g["orig"]),
+                      note=repr(outcome)[:150])
+            return
         ex.oblige(self.oname("ensures:backup_file_is_removed_in_every_case"), bak == ABSENT)
         if case["dry_run"]:
             ex.oblige(self.oname("frame:dry_run_touches_no_file"), cur == g["orig"])
